@@ -385,11 +385,19 @@ func parked(fn, st string) int {
 
 // gatePatience bounds every wait for a goroutine to reach the state an episode wants it in. Giving up changes which
 // interleaving is explored, never a verdict: the trace records what was done and the specification judges every outcome.
-// After the first time-out the driver stops waiting at all (a node whose dispatcher never reaches the gate would
+// After the third time-out the driver stops waiting at all (a node whose dispatcher never reaches the gate would
 // otherwise cost the patience once per episode).
 const gatePatience = 5 * time.Second
 
-var gateBroken atomic.Bool
+var gateFailures atomic.Int32
+
+type brokenFlag struct{}
+
+// gateBroken: three waits have timed out in this process.
+var gateBroken brokenFlag
+
+func (brokenFlag) Load() bool  { return gateFailures.Load() >= 3 }
+func (brokenFlag) Store(bool) { gateFailures.Add(1) }
 
 // waitFor polls a condition on goroutine states (no verdict depends on the time this takes, nor on whether it gives up).
 func waitFor(what string, cond func() bool) error {
